@@ -54,6 +54,7 @@ class C15(Check):
         a = [("toy",), worlds.WorldSpec(("+", "-"), True, False, 0, "richd")]
         if self.tier == "thorough":
             a.append(worlds.WorldSpec(("-", "+"), False, True, 1, "richd"))
+            a += [("shipped", "nat2"), ("shipped", "tpmt")]
         return a
 
     def initial_states(self):
@@ -66,6 +67,8 @@ class C15(Check):
                 for planted in minor_plantings(gene, struct):
                     n += 1
                     if wk != ("toy",) and n % (6 if self.tier == "quick" else 2) != self.seed % (6 if self.tier == "quick" else 2):
+                        continue
+                    if wk[0] == "shipped" and n % 40:
                         continue
                     base = self._base(gene, planted)
                     devs = [()]
@@ -108,7 +111,7 @@ class C15(Check):
                     k += 1
                     if self.tier == "quick" and k % 20 != (self.seed + len(planted[0][1])) % 20:
                         continue
-                    if self.tier == "thorough" and k % 5 != (self.seed + len(planted[0][1])) % 5:
+                    if self.tier == "thorough" and k % 10 != (self.seed + len(planted[0][1])) % 10:
                         continue
                     yield (f"+{j} lowq {op}@{pos}", (wk, planted, dv, th, ((pos, op, j, qq),)))
 
